@@ -195,6 +195,8 @@ def main(machine, argv=None):
                         harness_errors.append(r)
                     elif st == 'inconclusive':
                         inconclusive += 1
+                        if inconclusive <= 12:
+                            sys.stderr.write('inconclusive (wall-clock backstop): run %s seed %s\n' % (r.get('i'), r.get('seed')))
                     else:
                         merge_stats(agg, r.get('stats', {}))
                         digests[r['i']] = r.get('digest')
